@@ -866,7 +866,7 @@ def check_msg_mapping():
     for body, want_plain, want_html in (("plain body text", "plain body text", ""), ("<html><body><p>html body</p></body></html>", None, "<html><body><p>html body</p></body></html>")):
         class Stub:
             def __init__(self, stream):
-                self.subject, self.message_id, self.sent_date = "  the subject ", "<mid@x.org>", "Mon, 01 Jan 2024 10:00:00 +0200"
+                self.subject, self.message_id, self.sent_date = "  the  subject\u00a0x\ty ", "<mid@x.org>", "Mon, 01 Jan 2024 10:00:00 +0200"
                 self.sender, self.to, self.cc, self.bcc, self.reply_to = "S <s@x.org>", "A <a@x.org>; A2 <a2@x.org>", "C <c@x.org>", "B <b@x.org>", "R <r@x.org>"
                 self.body = body
         real = msg.MsOxMessage
@@ -882,7 +882,7 @@ def check_msg_mapping():
         r = res[0]
         got = {"subject": r.subject, "message_id": r.metadata.message_id, "date": r.metadata.date, "from": (r.from_email.name, r.from_email.address),
                "to": _addr_list(r.to_emails), "cc": _addr_list(r.to_cc), "bcc": _addr_list(r.to_bcc), "html": r.body_html}
-        want = {"subject": "the subject", "message_id": "<mid@x.org>", "date": "2024-01-01T10:00:00+02:00", "from": ("S", "s@x.org"),
+        want = {"subject": "the  subject\u00a0x\ty", "message_id": "<mid@x.org>", "date": "2024-01-01T10:00:00+02:00", "from": ("S", "s@x.org"),
                 "to": [("A", "a@x.org"), ("A2", "a2@x.org")], "cc": [("C", "c@x.org")], "bcc": [("B", "b@x.org")], "html": want_html}
         if want_plain is not None:
             got["plain"], want["plain"] = r.body_plain, want_plain
@@ -994,6 +994,46 @@ def w_folded_subject(kind):
     return got != "part one part two", {"message": raw.decode()}, "subject == 'part one part two' (RFC 5322 2.2.3 unfolding)", {"subject": got}
 
 
+WS_SUBJECTS = ["Re:  Q4  figures", "a\tb", "prix\u00a0: 10\u202f000 \u20ac", "\u5168\u89d2\u3000\u30b9\u30da\u30fc\u30b9", "thin\u2009space  and  runs", "x  ", "  y"]
+
+
+def check_subjects(kind):
+    """The subject is the decoded Subject header: white space that is CONTENT (runs of blanks, a tab, NBSP / narrow NBSP /
+    thin / ideographic space) is kept, only the ends are stripped.  Systematic: every generator subject and every
+    white-space subject, written by the stdlib generator (RFC 2047 words where needed) and as a legacy Header in utf-8 /
+    a national charset."""
+    from email.message import EmailMessage
+    from email.header import Header
+    from email import policy
+    raws = []
+    for subj in SUBJECTS + WS_SUBJECTS:
+        m = EmailMessage(policy=policy.default.clone(linesep="\n"))
+        m["From"], m["To"], m["Date"] = "a@x.org", "b@x.org", "Mon, 01 Jan 2024 10:00:00 +0000"
+        m["Subject"] = subj
+        m.set_content("body\n")
+        raw = m.as_bytes()
+        import email as _email
+        back = _email.message_from_bytes(raw, policy=policy.default)["Subject"]
+        if back is not None and str(back).strip() == subj.strip():        # otherwise a generator artefact, not ground truth
+            raws.append((raw, subj))
+        for cs in ("utf-8", "iso-8859-1", "shift_jis"):
+            if not _encodable(subj, cs) or not subj.strip() or len(subj) > 60:
+                continue
+            try:
+                h = Header(subj, cs).encode()
+            except Exception:  # noqa
+                continue
+            if "\n" in h:
+                continue
+            raws.append((_simple(h.encode("ascii")), subj))
+    for raw, subj in raws:
+        res = run_eml(raw) if kind == "eml" else run_mbox(mbox_bytes([raw]))
+        got = [r.subject for r in res]
+        if got != [subj.strip()]:
+            return {"target": "subject", "inputs": {"message": raw.decode("latin-1"), "kind": kind}, "expected": [subj.strip()], "observed": got}
+    return None
+
+
 def w_folded_ids():
     raw = b"From: a@x.org\nSubject: s\n" + D0 + b"Message-ID:\n <abc@x.org>\nIn-Reply-To:\n <parent@x.org>\n\nbody\n"
     r = run_mbox(mbox_bytes([raw]))[0]
@@ -1028,6 +1068,8 @@ WITNESSES = [
     ("_read_eml_format/ensures#every-attachment", _w(check_eml_attachments)),
     ("decode_header_value/ensures", w_unfold_fn),
     ("_read_eml_format/ensures#subject", lambda: w_folded_subject("eml")),
+    ("_read_eml_format/ensures#subject", _w(lambda: check_subjects("eml"))),
+    ("parse_email_message/ensures#subject", _w(lambda: check_subjects("mbox"))),
     ("parse_email_message/ensures#message_id", w_folded_ids),
     ("parse_email_message/ensures#in_reply_to", w_folded_ids),
 ]
